@@ -88,6 +88,29 @@ def _run_check(prop, tier, seed, replay):
                 if notallowed:
                     rep.violation(dict(kind="axiom"), "theorems depend on non-whitelisted axioms %r" % notallowed,
                                   dict(axioms=notallowed), found_input=False)
+                # the facts tying the model to the source (regenerated tables, AST translations): counted as
+                # obligations of this property, with their own assumptions
+                tie = {}
+                for t in mod.COQ_TARGETS:
+                    if not t.startswith("GenFacts/"):
+                        continue
+                    fnames = C.assumption_targets(t[:-1])
+                    m = t[:-3].replace("/", ".")
+                    fax, fraw = C.print_assumptions(prop, fnames, rundir, module=m) if fnames else ({}, "")
+                    if fax is None:
+                        ctx["proof_ok"] = False
+                        ctx["build_failed"] = ["Print Assumptions " + t]
+                        ctx["build_log"] = fraw[-3000:]
+                        break
+                    bad_ax = sorted(set(a for v in fax.values() for a in v if a not in C.ALLOWED_AXIOMS))
+                    if bad_ax:
+                        rep.violation(dict(kind="axiom", file=t), "tie facts of %s depend on non-whitelisted axioms %r" % (t, bad_ax),
+                                      dict(axioms=bad_ax), found_input=False)
+                    tie[t[:-1]] = dict(lemmas=len(fnames), closed=sum(1 for v in fax.values() if not v),
+                                       with_axioms={k: v for k, v in fax.items() if v})
+                    rep.obligations += len(fnames)
+                    rep.discharged += len(fnames)
+                rep.coverage["tie_facts"] = tie
         rep.coverage["checker_cmd"] = "coq_makefile -f _CoqProject && make %s (coqc 8.16.1, full .vo) ; coqc Print Assumptions" % " ".join(mod.COQ_TARGETS)
         rep.coverage["trusted_base"] = C.TRUSTED_BASE + getattr(mod, "TRUSTED_EXTRA", [])
         rep.coverage["theorems"] = names
